@@ -764,15 +764,19 @@ class Link(SimComponent):
             receiver = self.endpoint_b
         frame_size = frame.size_Mbits
 
+        # Load the frame size on the link before handing the frame over, so that anything sent while it is being
+        # delivered (replies, forwarded copies) is admitted against a load that already includes it
+        load_before = self.current_load
+        self.current_load += frame_size
         if receiver.receive_frame(frame):
             # Frame transmitted successfully
-            # Load the frame size on the link
-            self.current_load += frame_size
             _LOGGER.debug(
                 f"Added {frame_size:.3f} Mbits to {self}, current load {self.current_load:.3f} Mbits "
                 f"({self.current_load_percent})"
             )
             return True
+        # the receiver did not take the frame (and so sent nothing): it does not count towards the load
+        self.current_load = load_before
         return False
 
     def __str__(self) -> str:
